@@ -1,6 +1,7 @@
 package main
 
 import (
+	"bytes"
 	"encoding/json"
 	"fmt"
 	"hash/crc32"
@@ -263,6 +264,29 @@ func hotMain(base string, secs float64, ng, idx, iot int, backups bool) {
 	o.IndexType = int8(idx)
 	o.FileIOType = byte(iot)
 	o.ShardNum = 4
+	// a few LARGE write-once values (several blocks each), written by an earlier session with a large file size so that they
+	// share ONE data file, which every reader fetches again and again: overlapping reads of DIFFERENT records of one older data
+	// file from many goroutines (state shared per file or per read path shows up as a wrong byte or a checksum error)
+	bigK := make([][]byte, 4)
+	bigV := make([][]byte, 4)
+	{
+		o1 := o
+		o1.DataFileSize = 1 << 20
+		db1, err := kv.Open(o1)
+		if err != nil {
+			fmt.Println(`{"error":"open failed"}`)
+			os.Exit(1)
+		}
+		for j := range bigK {
+			bigK[j] = []byte(fmt.Sprintf("big-%d", j))
+			bigV[j] = append(append([]byte{}, bigK[j]...), patBytes(uint64(9000+j), 20000+j*4111)...)
+			if err := db1.Put(bigK[j], bigV[j]); err != nil {
+				fmt.Println(`{"error":"put failed"}`)
+				os.Exit(1)
+			}
+		}
+		db1.Close()
+	}
 	db, err := kv.Open(o)
 	if err != nil {
 		fmt.Println(`{"error":"open failed"}`)
@@ -309,11 +333,27 @@ func hotMain(base string, secs float64, ng, idx, iot int, backups bool) {
 			defer wg.Done()
 			var prevV []byte
 			var prevSum uint32
-			for {
+			for it := 0; ; it++ {
 				select {
 				case <-stop:
 					return
 				default:
+				}
+				if it%2 == 1 {
+					j := (it/2 + g) % len(bigK)
+					v, err := db.Get(bigK[j])
+					atomic.AddInt64(&gets, 1)
+					if err != nil || !bytes.Equal(v, bigV[j]) {
+						mu.Lock()
+						if err != nil {
+							errs["get-big:"+errClass(err)]++
+						} else {
+							errs["get-big:wrong-bytes"]++
+						}
+						mu.Unlock()
+						atomic.AddInt64(&bad, 1)
+					}
+					continue
 				}
 				// the slice returned by the PREVIOUS Get must still hold what it held (a completed Get's result is the caller's)
 				if prevV != nil && crc32.ChecksumIEEE(prevV) != prevSum {
@@ -355,6 +395,15 @@ func hotMain(base string, secs float64, ng, idx, iot int, backups bool) {
 					errs["get:foreign-value"]++
 					mu.Unlock()
 					atomic.AddInt64(&bad, 1)
+				}
+				if err == nil && len(v) >= len(k) && string(v[:len(k)]) == string(k) {
+					// the whole value, not only its head: it is a function of the key
+					if i, e := strconv.Atoi(string(k[2:])); e == nil && !bytes.Equal(v[len(k):], patBytes(uint64(i), 300+i%400)) {
+						mu.Lock()
+						errs["get:wrong-bytes"]++
+						mu.Unlock()
+						atomic.AddInt64(&bad, 1)
+					}
 				}
 				if err == nil {
 					prevV, prevSum = v, crc32.ChecksumIEEE(v)
